@@ -391,7 +391,9 @@ pub fn flex_layout(
                     let child_minor = direction.minor(child_layout.size());
 
                     // update counters
-                    major_remain -= child_major;
+                    // child is free to ignore its constraint (e.g. `Frame` always
+                    // adds the border), it must not underflow remaining space
+                    major_remain = major_remain.saturating_sub(child_major);
                     major_flex += child_major;
                     minor = max(minor, child_minor);
                 }
